@@ -126,6 +126,15 @@ func (ln line) intersectLine(other line) lineWithLineIntersection {
 		return lineWithLineIntersection{false, pt, pt}
 	}
 
+	if o3 == collinear && o4 == collinear && !(o1 == collinear && o2 == collinear) {
+		// Floating point rounding can make one pair of orientation tests see
+		// the two lines as collinear while the other pair doesn't (e.g. two
+		// almost collinear lines that share an endpoint). Swap the roles of
+		// the lines so that the collinear case below handles them, rather than
+		// falling through and reporting no intersection.
+		return other.intersectLine(ln)
+	}
+
 	if o1 == collinear && o2 == collinear {
 		if (!onSegment(a, b, c) && !onSegment(a, b, d)) && (!onSegment(c, d, a) && !onSegment(c, d, b)) {
 			return lineWithLineIntersection{empty: true}
